@@ -41,6 +41,12 @@ type (
 		ShallRotate(size int64) bool
 	}
 
+	// rotationTimeNamer 是 RotateRule 的可选扩展：备份以轮换时刻命名的规则实现它。
+	// 其余规则的备份名在当前文件打开时就已确定（按天轮换：文件所属的日期）。
+	rotationTimeNamer interface {
+		namesBackupAtRotation() bool
+	}
+
 	// DailyRotateRule 表示一个每天轮换日志文件的规则。
 	DailyRotateRule struct {
 		rotatedTime string
@@ -222,6 +228,13 @@ func (r *SizeLimitRotateRule) ShallRotate(size int64) bool {
 	return r.maxSize > 0 && r.maxSize < size
 }
 
+// namesBackupAtRotation 表明备份以轮换时刻（即其中最新记录的时刻）命名，而不是以文件打开的时刻：
+// 否则填充得慢于保留天数的文件一轮换即被当作过期备份删除，
+// 且打开后同一秒内的首次轮换与下一次轮换会得到同一个备份名。
+func (r *SizeLimitRotateRule) namesBackupAtRotation() bool {
+	return true
+}
+
 func (r *SizeLimitRotateRule) parseFilename() (prefix, ext string) {
 	logName := filepath.Base(r.filename)
 	ext = filepath.Ext(r.filename)
@@ -370,6 +383,10 @@ func (l *RotateLogger) rotate() error {
 
 func (l *RotateLogger) getBackupFilename() string {
 	if len(l.backup) == 0 {
+		return l.rule.BackupFilename()
+	}
+
+	if namer, ok := l.rule.(rotationTimeNamer); ok && namer.namesBackupAtRotation() {
 		return l.rule.BackupFilename()
 	}
 
